@@ -310,6 +310,39 @@ def apalache_inductive(env):
     return res
 
 
+def tlaps_proof(env):
+    """TLAPS proof (tlapm) of specs/tlaps/ReadinessProof.tla: the no-lost-wake-up invariant of the sub-waker protocol is
+    inductive for an ARBITRARY number of children (the Apalache check bounds N by 5, the TLC runs bound everything).
+    Spec-only, cached by the content of the module."""
+    SPECS = env["SPECS"]
+    d = os.path.join(SPECS, "tlaps")
+    root = os.path.dirname(SPECS)
+    cdir = os.path.join(root, "work", "l2cache")
+    os.makedirs(cdir, exist_ok=True)
+    h = hashlib.sha1(open(os.path.join(d, "ReadinessProof.tla"), "rb").read()).hexdigest()[:16]
+    cpath = os.path.join(cdir, "tlaps_ReadinessProof_%s.json" % h)
+    if os.path.exists(cpath) and not os.environ.get("VERIF_NO_L2_CACHE"):
+        r = json.load(open(cpath))
+        r["reused_from_cache"] = True
+        return r
+    t0 = time.time()
+    subprocess.run(["rm", "-rf", os.path.join(d, ".tlacache")])
+    p = subprocess.run(["tlapm", "--threads", "4", "--cleanfp", "--nofp", "ReadinessProof.tla"], cwd=d, capture_output=True, text=True, timeout=1800)
+    out = p.stdout + p.stderr
+    m = re.search(r"All (\d+) obligations? proved", out)
+    res = dict(module="ReadinessProof", kind="proof (TLAPS)", ok=bool(m) and p.returncode == 0,
+               obligations=int(m.group(1)) if m else 0, discharged=int(m.group(1)) if m else 0,
+               secs=round(time.time() - t0, 1), reused_from_cache=False,
+               statement="THEOREM Spec => []NoLostWake for every N >= 1: a set readiness bit of a child the scan has passed (or any set bit while "
+                         "parked, unless the consumer is about to poll again on its own) implies that the waker of the most recent poll has been invoked")
+    subprocess.run(["rm", "-rf", os.path.join(d, ".tlacache")])
+    if res["ok"]:
+        json.dump(res, open(cpath, "w"))
+    else:
+        res["output_tail"] = out[-1500:]
+    return res
+
+
 def prewarm(env, tier="quick"):
     """Model-check / export every L2 module once (spec-only work, shared by all checks through the cache)."""
     SPECS = env["SPECS"]
@@ -326,6 +359,10 @@ def prewarm(env, tier="quick"):
         return kind, mod, r["ok"], r["states"], r["secs"], cached, r.get("out_tail", "")
 
     bad = []
+    prf = tlaps_proof(env)
+    env["log"]("  TLAPS ReadinessProof: %d obligations, %s (%.1fs)" % (prf["obligations"], "all proved" if prf["ok"] else "ERROR", prf["secs"]))
+    if not prf["ok"]:
+        bad.append(("ReadinessProof", "proof", prf.get("output_tail", "")))
     ind = apalache_inductive(env)
     env["log"]("  Apalache ReadinessProto inductive invariant: %s (%.1fs)" % ("ok" if ind["ok"] else "ERROR", ind["secs"]))
     if not ind["ok"]:
@@ -344,6 +381,10 @@ def run_for_property(prop, tier, seed, plan, env):
     tracemon, split_runs = env["tracemon"], env["split_runs"]
     res = dict(states=0, transitions=0, models=[], mon_results=[], violations=[], replayed=0, conformance={}, drift=[], exhaustive=False)
     if prop == "C01":
+        prf = tlaps_proof(env)
+        res["models"].append(prf)
+        if not prf["ok"]:
+            raise ToolError("tlapm does not prove ReadinessProof.tla (a defect of the specification): %s" % prf.get("output_tail", "")[-800:])
         ind = apalache_inductive(env)
         res["models"].append(ind)
         if not ind["ok"]:
